@@ -26,12 +26,21 @@ def _kf_none(v):
 KNOWN_MATCHERS = {}
 
 
+UNBOUNDED_CAP = 31      # larger than any queue a run inside the step bound can build
+
+
 def jobs_for(tier, mir, repo, facts):
     jobs = []
     Ws = [1, 2] + ([3] if tier == 'thorough' else [])
+    if not (facts['capacity_is_num_threads'] or facts['channel_unbounded']):
+        raise Unsupported('MIRBMC: the capacity of the Pipe result channel is neither the thread count nor unbounded')
+    bf = facts['buffered']
+    if bf['channel'] == 'other':
+        raise Unsupported('MIRBMC: the capacity of the Buffered channel is neither buffer_size nor unbounded')
     for W in Ws:
         K = 20 if tier == 'quick' else 26
-        base = {'which': 'pipe', 'W': W, 'cap': W, 'N': 3, 'n_mode': 'unbounded', 'mir': mir, 'repo': repo}
+        base = {'which': 'pipe', 'W': W, 'cap': W if facts['capacity_is_num_threads'] else UNBOUNDED_CAP, 'N': 3, 'n_mode': 'unbounded',
+                'mir': mir, 'repo': repo}
         jobs.append(dict(base, name='pipe W=%d lookahead' % W, K=K, cfg={}, query='lookahead', lookahead_bound=2 * W))
         jobs.append(dict(base, name='pipe W=%d lookahead tight' % W, K=K, cfg={}, query='lookahead_tight', lookahead_bound=2 * W))
         jobs.append(dict(base, name='pipe W=%d drop: further pulls' % W, K=K, cfg={'allow_drop': True}, query='drop_pulls', drop_bound=W))
@@ -42,7 +51,8 @@ def jobs_for(tier, mir, repo, facts):
         jobs.append(dict(base, name='pipe W=%d panic witness' % W, K=12, cfg=pc, query='panic_witness'))
     for cap in [1, 2] + ([3] if tier == 'thorough' else []):
         K = 14 if tier == 'quick' else 18
-        base = {'which': 'buffered', 'W': 1, 'cap': cap, 'N': 3, 'n_mode': 'unbounded', 'mir': mir, 'repo': repo}
+        base = {'which': 'buffered', 'W': 1, 'cap': cap if bf['channel'] == 'buffer_size' else UNBOUNDED_CAP, 'N': 3, 'n_mode': 'unbounded',
+                'mir': mir, 'repo': repo, 'buffer_size': cap}
         bc = {'enumerate': False, 'pull_needs_lock': False}
         jobs.append(dict(base, name='buffered size=%d lookahead' % cap, K=K, cfg=bc, query='lookahead', lookahead_bound=cap + 1))
         jobs.append(dict(base, name='buffered size=%d lookahead tight' % cap, K=K, cfg=bc, query='lookahead_tight', lookahead_bound=cap + 1))
@@ -61,12 +71,13 @@ def native_replay(native_factory, r):
     """Confirm a counterexample against the real code (counting source iterator, drop / idle, child exit status)."""
     native = native_factory()
     which = 'pipe_run' if r['name'].startswith('pipe') else 'buffered_run'
-    W, cap = r['W'], r['cap']
+    W, cap = r['W'], r.get('buffer_size', r['cap'])
     q = r['query']
     failed = []
     if q == 'lookahead':
         k, v = native_ok(native.call(which, n=100000, w=W, buffer=cap, delays_ms=[], consume=1, then='idle', settle_ms=300, _timeout=10.0))
-        bound = r['lookahead_bound']
+        # the property asks for a constant that does not depend on the input length: far beyond any such constant
+        bound = 8 * (r.get('lookahead_bound', 2 * W) + 2)
         if k != 'ok' or v['pulled_end'] - len(v['outputs']) > bound:
             failed.append(CLAIMS[q])
     elif q in ('drop_pulls', 'drop_stuck'):
@@ -116,6 +127,7 @@ def validate_against_impl(native, seed):
 def custom_main(tier, seed, mir, repo, get_native, procs):
     prog = Program(mir)
     facts = pipe_facts(prog, repo)
+    facts['buffered'] = buffered_facts(prog, repo)
     incon, violations, lines = [], [], []
     results = run_jobs(jobs_for(tier, mir, repo, facts), procs)
     native = get_native()
